@@ -121,7 +121,7 @@ func runC02(c *Ctx) {
 	}
 	interesting := 0
 	for _, cl := range clients {
-		if cl.Left || cl.CliClosed || cl.RecvClosed || everStalled[cl] || DroppedTo(w, cl.ID) > 0 {
+		if cl.Left || cl.CliClosed || cl.RecvClosed || everStalled[cl] || LossyTo(c, w, cl.Sess) {
 			continue // not "a caller that stays attached and keeps reading"
 		}
 		for _, cr := range cl.Calls {
@@ -211,8 +211,11 @@ func runC02(c *Ctx) {
 					if iv.Tag != cr.Tag || !iv.Final || !iv.ByYield || lastResume > iv.FinalT+30*time.Second {
 						continue
 					}
-					if cr.Timeout > 0 && iv.FinalT+2*time.Millisecond >= cr.SentT+time.Duration(cr.Timeout)*time.Millisecond {
-						continue // the router-side timeout may have ended the call first
+					if cr.Timeout > 0 && (iv.FinalT+2*time.Millisecond >= cr.SentT+time.Duration(cr.Timeout)*time.Millisecond || cr.SentT+time.Duration(cr.Timeout)*time.Millisecond <= lastResume) {
+						// the router-side timeout may have ended the call first - also while the
+						// RESULT was being held back for the caller, whose queue then had no room
+						// for the timeout ERROR either
+						continue
 					}
 					c.Probe("obligation_result_retry")
 					if st := states[cl][cr.Req]; st == nil || st.finals == 0 {
@@ -277,7 +280,7 @@ func runC08(c *Ctx) {
 		}
 	}
 	for _, cl := range clients {
-		if DroppedTo(w, cl.ID) > 0 {
+		if LossyTo(c, w, cl.Sess) {
 			lossy[cl] = true
 		}
 	}
